@@ -10,7 +10,7 @@ from __future__ import annotations
 from specs.inotify_read import IRWorld, AddDirWatch, AddWatch, ReadEvents, string_lemmas, FILE
 
 PROP = "C02"
-GROUNDABLE = False
+GROUNDABLE = True
 BATTERY = "c02_battery.py"
 
 
